@@ -66,8 +66,11 @@ contract(
     requires=[],
     ensures=["node.parent == old(node.parent)", "node.kind == old(node.kind)", "node.line == old(node.line)",
              "node.id_link == old(node.id_link)", "node.refuri == old(node.refuri)",
-             # (a warning node is appended only for a failing converter; these call sites pass none - `converters` is typed None)
-             "node.children == old(node.children)"],
+             # (a warning node is appended for a failing converter - these call sites pass none, `converters` is typed None -
+             #  and docutils appends a message to `node` when an id attribute clashes with a registered name)
+             "node.children[: len(old(node.children))] == old(node.children)",
+             # only the new message nodes get a parent
+             "forall_obj('Element', lambda e: implies(old(allocated(e)), e.parent == old(e.parent)))"],
     types={"token": "SyntaxTreeNode", "node": "Element", "keys": "tuple[str, ...]", "converters": "None"},
     raises={}, modifies=["node.children", "Document.log", "fresh", "Element.parent"], trusted=True,
 )
@@ -150,17 +153,18 @@ contract(
                           "len(result.names) == 0", "not result.id_link", "result.refuri is None"],
     returns="Element", modifies=["fresh1"], trusted=True,
 )
+LAST = "self.current_node.children[len(self.current_node.children) - 1]"
 contract(
     f"{M}:DocutilsRenderer.render_myst_target",
     requires=REQ,
     ensures=KEEP + [
-        # exactly one target node, at the target's own line, named by the normalised text and registered under that name
-        "len(self.current_node.children) == len(old(self.current_node.children)) + 1",
-        f"{NEW}.kind == 'target' and {NEW}.parent == self.current_node and fresh({NEW})",
-        f"{NEW}.names == [FullyNormalizeName(token.content)]",
+        # the target node is attached LAST (a duplicate name makes docutils put a message in front of it), at the target's own
+        # line, and the normalised text is a registered name (the node keeps it in `names`, or in `dupnames` after a clash)
+        "len(self.current_node.children) >= len(old(self.current_node.children)) + 1",
+        f"{LAST}.kind == 'target' and {LAST}.parent == self.current_node and fresh({LAST})",
         "FullyNormalizeName(token.content) in self.document.nameids",
         "self.document.nameids[: len(old(self.document.nameids))] == old(self.document.nameids)",
-        f"implies(token.map is not None and len(token.map) > 0, {NEW}.line == token.map[0])",
+        f"implies(token.map is not None and len(token.map) > 0, {LAST}.line == token.map[0])",
     ],
     types={"token": "SyntaxTreeNode"},
     raises={},
